@@ -11,6 +11,8 @@ import Driver.Status
 import Driver.IrvBallot
 import Driver.Dominion
 import Driver.Manifest
+import Driver.Sampling
+import Driver.Phantoms
 open Lean Shangrla Shangrla.Drv
 
 def dispatch (g op : String) (a : Json) : R Json :=
@@ -23,6 +25,8 @@ def dispatch (g op : String) (a : Json) : R Json :=
   | "irvballot" => IrvBallotH.handle op a
   | "dominion" => DominionH.handle op a
   | "manifest" => ManifestH.handle op a
+  | "sampling" => SamplingH.handle op a
+  | "phantoms" => PhantomsH.handle op a
   | _ => throw s!"unknown group {g}"
 
 def handleLine (line : String) : String :=
